@@ -73,8 +73,14 @@ class Server:
                 "pygopherd__timeout": str(mode.get("timeout", 20)),
                 "logger__logmethod": "file"}
         if mode.get("tls"):
-            over.update({"pygopherd__enable_tls": "yes", "pygopherd__tls_certfile": os.path.join(rig.REPO, "testdata", "demo.crt"),
-                         "pygopherd__tls_keyfile": os.path.join(rig.REPO, "testdata", "demo.key")})
+            # the key as an administrator keeps it: readable by root only, outside the document root
+            import shutil
+
+            crt, key = os.path.join(self.base, "server.crt"), os.path.join(self.base, "server.key")
+            shutil.copy(os.path.join(rig.REPO, "testdata", "demo.crt"), crt)
+            shutil.copy(os.path.join(rig.REPO, "testdata", "demo.key"), key)
+            os.chmod(key, 0o600)
+            over.update({"pygopherd__enable_tls": "yes", "pygopherd__tls_certfile": crt, "pygopherd__tls_keyfile": key})
         over.update(mode.get("extra", {}))
         config = rig.make_config(self.root if not mode.get("relroot") else "docroot", handlers=handlers, cachetime=mode.get("cachetime", 0), **over)
         for opt in ("setuid", "setgid"):
@@ -127,6 +133,20 @@ class Server:
             return tuple(map(int, u.groups())), tuple(map(int, g.groups()))
         except (OSError, AttributeError):
             return None, None
+
+    def groups(self):
+        try:
+            with open("/proc/%d/status" % self.proc.pid) as f:
+                m = re.search(r"^Groups:[ \t]*([^\n]*)$", f.read(), re.M)
+            return tuple(int(x) for x in m.group(1).split())
+        except (OSError, AttributeError):
+            return None
+
+    def cwd_of_process(self):
+        try:
+            return os.readlink("/proc/%d/cwd" % self.proc.pid)
+        except OSError:
+            return None
 
     def root_of_process(self):
         try:
